@@ -447,6 +447,16 @@ macro_rules! chain_impl {
 }
 
 chain_impl!(c8_16_2, u8, u16, 2);
+// every PRECISION 1..=8 on (u8,u16): all relations between PRECISION and Word::BITS (dividing / not dividing,
+// 2P <= W / 2P > W, W - P equal to / different from gcd(P, W), P = W)
+chain_impl!(c8_16_1, u8, u16, 1);
+chain_impl!(c8_16_3, u8, u16, 3);
+chain_impl!(c8_16_5, u8, u16, 5);
+chain_impl!(c8_16_6, u8, u16, 6);
+chain_impl!(c8_16_7, u8, u16, 7);
+chain_impl!(c8_32_5, u8, u32, 5);
+chain_impl!(c16_32_10, u16, u32, 10);
+chain_impl!(c16_32_9, u16, u32, 9);
 chain_impl!(c8_16_4, u8, u16, 4);
 chain_impl!(c8_16_8, u8, u16, 8);
 chain_impl!(c8_32_2, u8, u32, 2);
@@ -532,6 +542,14 @@ schedule_impl!(sched_8_32_2_8, u8, u32, 2, 8);
 schedule_impl!(sched_8_32_8_2, u8, u32, 8, 2);
 schedule_impl!(sched_8_16_4_8, u8, u16, 4, 8);
 schedule_impl!(sched_8_16_8_4, u8, u16, 8, 4);
+// schedules through precisions that do NOT divide the word size: leftover bits are carried across the change
+schedule_impl!(sched_8_32_3_4, u8, u32, 3, 4);
+schedule_impl!(sched_8_32_4_3, u8, u32, 4, 3);
+schedule_impl!(sched_8_32_5_2, u8, u32, 5, 2);
+schedule_impl!(sched_8_32_3_8, u8, u32, 3, 8);
+schedule_impl!(sched_8_16_5_6, u8, u16, 5, 6);
+schedule_impl!(sched_16_32_12_8, u16, u32, 12, 8);
+schedule_impl!(sched_16_32_10_16, u16, u32, 10, 16);
 schedule_impl!(sched_16_32_12_16, u16, u32, 12, 16);
 schedule_impl!(sched_16_32_16_8, u16, u32, 16, 8);
 
@@ -634,7 +652,7 @@ fn finish(report: &Report, total: Stats, c14: bool) {
 
 pub fn run(report: &Report) {
     let q = report.tier == Tier::Quick;
-    report.bound("every word string of the listed lengths x every model sequence of the listed length; from_binary and (last word != 0) from_compressed; three continuations each; 8 precision schedules P1->P2->P1");
+    report.bound("every word string of the listed lengths x every model sequence of the listed length; from_binary and (last word != 0) from_compressed; three continuations each; 15 precision schedules P1->P2->P1 (also through precisions that do not divide the word size)");
     report.assume("models are 3-part partitions around each letter of the alphabet at the coder's precision");
     for n in ["ran_out_of_compressed_data", "continuations_restored", "decodes_that_flushed_the_remainders_head", "single_steps_from_arbitrary_heads",
         "single_step_refills", "single_step_flushes", "single_step_out_of_compressed_data", "single_step_out_of_remainders"] {
@@ -653,6 +671,12 @@ pub fn run(report: &Report) {
         run_restore!(report, total, c8_16_2, u8, all_words(&few8, len), 2, if q { 3 } else { 4 }, format!("strings over {{00,01,80,ff,5a}} of length {len}"));
         run_restore!(report, total, c8_32_2, u8, all_words(&few8, len), 2, if q { 3 } else { 4 }, format!("strings over {{00,01,80,ff,5a}} of length {len}"));
         run_restore!(report, total, c8_16_4, u8, all_words(&few8, len), 4, 3, format!("strings over 5 words of length {len}"));
+        run_restore!(report, total, c8_16_1, u8, all_words(&few8, len), 1, 5, format!("strings over 5 words of length {len}"));
+        run_restore!(report, total, c8_16_3, u8, all_words(&few8, len), 3, 2, format!("strings over 5 words of length {len}"));
+        run_restore!(report, total, c8_16_5, u8, all_words(&few8, len), 5, 3, format!("strings over 5 words of length {len}"));
+        run_restore!(report, total, c8_16_6, u8, all_words(&few8, len), 6, 3, format!("strings over 5 words of length {len}"));
+        run_restore!(report, total, c8_16_7, u8, all_words(&few8, len), 7, 3, format!("strings over 5 words of length {len}"));
+        run_restore!(report, total, c8_32_5, u8, all_words(&few8, len), 5, 3, format!("strings over 5 words of length {len}"));
         run_restore!(report, total, c8_16_8, u8, all_words(&few8, len), 8, 3, format!("strings over 5 words of length {len}"));
         run_restore!(report, total, c8_32_8, u8, all_words(&few8, len), 8, 3, format!("strings over 5 words of length {len}"));
     }
@@ -669,6 +693,8 @@ pub fn run(report: &Report) {
     let few32: Vec<u32> = vec![0, 1, 0x8000_0000, 0xffff_ffff, 0x5a5a_5a5a];
     for len in 1..=4usize {
         run_restore!(report, total, c16_32_12, u16, all_words(&few16, len), 12, 3, format!("strings over 5 boundary words of length {len}"));
+        run_restore!(report, total, c16_32_10, u16, all_words(&few16, len), 10, 3, format!("strings over 5 boundary words of length {len}"));
+        run_restore!(report, total, c16_32_9, u16, all_words(&few16, len), 9, 3, format!("strings over 5 boundary words of length {len}"));
         run_restore!(report, total, c16_32_16, u16, all_words(&few16, len), 16, 3, format!("strings over 5 boundary words of length {len}"));
         run_restore!(report, total, c32_64_24, u32, all_words(&few32, len), 24, 3, format!("strings over 5 boundary words of length {len}"));
     }
@@ -680,11 +706,15 @@ pub fn run(report: &Report) {
         ($f:ident, $datas:expr, $p1:expr, $p2:expr) => {{
             let l1 = letters_at($p1);
             let l2 = letters_at($p2);
-            let s1: Vec<Vec<Letter>> = model_seqs(&l1, 1);
-            let s2: Vec<Vec<Letter>> = model_seqs(&l2, 2).into_iter().step_by(3).collect();
+            // 1 symbol at P1, 2 at P2, 3 at P1 again (a defect in how leftover bits survive the change may only
+            // show a few symbols after switching back); model sequences thinned out deterministically
+            let thin = |v: Vec<Vec<Letter>>, want: usize| -> Vec<Vec<Letter>> { let st = (v.len() / want).max(1); v.into_iter().step_by(st).collect() };
+            let s1: Vec<Vec<Letter>> = thin(model_seqs(&l1, 1), 6);
+            let s2: Vec<Vec<Letter>> = thin(model_seqs(&l2, 2), if q { 9 } else { 27 });
+            let s3: Vec<Vec<Letter>> = thin(model_seqs(&l1, 3), if q { 9 } else { 27 });
             let st = $datas.par_iter().map(|d| {
                 let mut st = Stats::default();
-                for a in &s1 { for b in &s2 { for c in &s1 {
+                for a in &s1 { for b in &s2 { for c in &s3 {
                     $f(d, a, b, c, &mut st);
                 }}}
                 st
@@ -699,6 +729,13 @@ pub fn run(report: &Report) {
     sched!(sched_8_32_8_2, datas8, 8, 2);
     sched!(sched_8_16_4_8, datas8, 4, 8);
     sched!(sched_8_16_8_4, datas8, 8, 4);
+    sched!(sched_8_32_3_4, datas8, 3, 4);
+    sched!(sched_8_32_4_3, datas8, 4, 3);
+    sched!(sched_8_32_5_2, datas8, 5, 2);
+    sched!(sched_8_32_3_8, datas8, 3, 8);
+    sched!(sched_8_16_5_6, datas8, 5, 6);
+    sched!(sched_16_32_12_8, datas16, 12, 8);
+    sched!(sched_16_32_10_16, datas16, 10, 16);
     sched!(sched_16_32_12_16, datas16, 12, 16);
     sched!(sched_16_32_16_8, datas16, 16, 8);
     report.section(json!({"precision_schedules_wall_s": t.elapsed().as_secs_f64()}));
@@ -730,6 +767,15 @@ fn single_step_part(report: &Report, total: &mut Stats, q: bool) {
     let l4 = if q { letters_at(4) } else { all_pairs(4) };
     let comps8s: Vec<Vec<u8>> = vec![vec![], vec![0x00], vec![0xa7], vec![0x3c, 0xff]];
     c8_16_4::single_step_sweep(report, total, &heads8, (16u16..4096).collect(), &l4, &comps8s, &rems8, "all 255 compressed heads x all 4080 valid remainders heads");
+    {
+        let lq = |p: u8| -> Vec<Letter> { if q && p == 3 { extremes(3) } else { letters_at(p) } };
+        let some_heads: Vec<u8> = if q { (1..=255u8).step_by(2).chain([2u8, 4, 8, 16, 32, 64, 128, 254]).collect() } else { heads8.clone() };
+        c8_16_1::single_step_sweep(report, total, &some_heads, (128u16..32768).step_by(if q { 3 } else { 1 }).collect(), &lq(1), &comps8s, &rems8, "compressed heads x remainders heads 128..32768 (quick: every other / every third)");
+        c8_16_3::single_step_sweep(report, total, &some_heads, (32u16..8192).collect(), &lq(3), &comps8s, &rems8, "compressed heads x all 8160 valid remainders heads");
+        c8_16_5::single_step_sweep(report, total, &heads8, (8u16..2048).collect(), &lq(5), &comps8s, &rems8, "all 255 compressed heads x all 2040 valid remainders heads");
+        c8_16_6::single_step_sweep(report, total, &heads8, (4u16..1024).collect(), &lq(6), &comps8s, &rems8, "all 255 compressed heads x all 1020 valid remainders heads");
+        c8_16_7::single_step_sweep(report, total, &heads8, (2u16..512).collect(), &lq(7), &comps8s, &rems8, "all 255 compressed heads x all 510 valid remainders heads");
+    }
     let l8: Vec<Letter> = if q { letters_at(8) } else { all_pairs(8) };
     c8_16_8::single_step_sweep(report, total, &[1u8, 0x80, 0xff], (1u16..256).collect(), &l8, &comps8s, &rems8, "PRECISION = Word bits: all 255 valid remainders heads");
     let l2 = all_pairs(2);
@@ -772,6 +818,12 @@ pub fn run_c14(report: &Report) {
         run_locality!(report, total, c8_16_2, u8, all_words(&few8, len), 2, 6, if q { 2003 } else { 211 }, format!("strings over 5 words of length {len}"));
         run_locality!(report, total, c8_32_2, u8, all_words(&few8, len), 2, 6, if q { 2003 } else { 211 }, format!("strings over 5 words of length {len}"));
         run_locality!(report, total, c8_16_4, u8, all_words(&few8, len), 4, 4, if q { 101 } else { 11 }, format!("strings over 5 words of length {len}"));
+        run_locality!(report, total, c8_16_1, u8, all_words(&few8, len), 1, 12, 7, format!("strings over 5 words of length {len}"));
+        run_locality!(report, total, c8_16_3, u8, all_words(&few8, len), 3, 4, if q { 20011 } else { 2003 }, format!("strings over 5 words of length {len}"));
+        run_locality!(report, total, c8_16_5, u8, all_words(&few8, len), 5, 6, if q { 10007 } else { 1009 }, format!("strings over 5 words of length {len}"));
+        run_locality!(report, total, c8_16_6, u8, all_words(&few8, len), 6, 5, if q { 1009 } else { 101 }, format!("strings over 5 words of length {len}"));
+        run_locality!(report, total, c8_16_7, u8, all_words(&few8, len), 7, 5, if q { 1009 } else { 101 }, format!("strings over 5 words of length {len}"));
+        run_locality!(report, total, c8_32_5, u8, all_words(&few8, len), 5, 5, if q { 1009 } else { 101 }, format!("strings over 5 words of length {len}"));
         run_locality!(report, total, c8_16_8, u8, all_words(&few8, len), 8, 4, if q { 101 } else { 11 }, format!("strings over 5 words of length {len}"));
     }
     let three8: Vec<u8> = vec![0x00, 0xff, 0x5a];
@@ -782,6 +834,8 @@ pub fn run_c14(report: &Report) {
     let few32: Vec<u32> = vec![0, 1, 0x8000_0000, 0xffff_ffff, 0x5a5a_5a5a];
     for len in 2..=4usize {
         run_locality!(report, total, c16_32_12, u16, all_words(&few16, len), 12, 3, 5, format!("strings over 5 boundary words of length {len}"));
+        run_locality!(report, total, c16_32_10, u16, all_words(&few16, len), 10, 4, 37, format!("strings over 5 boundary words of length {len}"));
+        run_locality!(report, total, c16_32_9, u16, all_words(&few16, len), 9, 4, 37, format!("strings over 5 boundary words of length {len}"));
         run_locality!(report, total, c16_32_16, u16, all_words(&few16, len), 16, 3, 5, format!("strings over 5 boundary words of length {len}"));
         run_locality!(report, total, c32_64_24, u32, all_words(&few32, len), 24, 3, 5, format!("strings over 5 boundary words of length {len}"));
     }
